@@ -119,6 +119,17 @@ var consumers = []consumer{
 	{name: "array0-surplus", wrap: func(d []byte) []byte { return append(append([]byte(`[`), d...), ']') },
 		pkg: func(w []byte) error { var s [0]int; return json.Unmarshal(w, &s) },
 		std: func(w []byte) error { var s [0]int; return stdjson.Unmarshal(w, &s) }},
+	// the document in key position: only a valid string makes a valid object, for every target
+	// that reads keys in its own way (struct fields, no fields, map, interface)
+	{name: "key-struct", wrap: func(d []byte) []byte { return append(append([]byte(`{`), d...), []byte(`:1}`)...) },
+		pkg: func(w []byte) error { var s struct{ A, B int }; return json.Unmarshal(w, &s) },
+		std: func(w []byte) error { var s struct{ A, B int }; return stdjson.Unmarshal(w, &s) }},
+	{name: "key-empty-struct", wrap: func(d []byte) []byte { return append(append([]byte(`[{"x":0,`), d...), []byte(`:{}}]`)...) },
+		pkg: func(w []byte) error { var s []struct{}; return json.Unmarshal(w, &s) },
+		std: func(w []byte) error { var s []struct{}; return stdjson.Unmarshal(w, &s) }},
+	{name: "key-map", wrap: func(d []byte) []byte { return append(append([]byte(`{`), d...), []byte(`:1}`)...) },
+		pkg: func(w []byte) error { var s map[string]any; return json.Unmarshal(w, &s) },
+		std: func(w []byte) error { var s map[string]any; return stdjson.Unmarshal(w, &s) }},
 	// fewer elements than the Go array has slots: the syntax of what is there is still checked
 	{name: "array-short", wrap: func(d []byte) []byte { return append(append([]byte(`[`), d...), ']') },
 		pkg: func(w []byte) error { var s [3]any; return json.Unmarshal(w, &s) },
@@ -547,7 +558,7 @@ func trunc(s string) string {
 func init() {
 	core.Register(&core.Monitor{
 		Prop:    "C05",
-		Rule:    "Every document goes through json.Valid and through syntax-only consumers (Marshal of RawMessage / Marshaler output / RawMessage field / RawMessage among valid siblings in maps and slices, Unmarshal into RawMessage, unknown-field skip, RawMessage field, surplus elements of [1]int and [0]int, arrays with fewer elements than slots, skipped member between known fields, Decoder framing of d, 'd d' and 'dd'); each is compared with the same operation of encoding/json on the same bytes (accept/reject; for the Decoder the framed values and EOF-vs-error). Families: bytes-exhaustive (all strings of length <= 4 (quick) / 5 (thorough) over a 35-byte JSON-significant alphabet), tokens-exhaustive (all sequences of <= 3 / 4 tokens over a 40-token alphabet), string-sweep (content length 0-40 x every position x 16 special sequences x 5 contexts), number-grammar (sign x int x frac x exp product in 6 contexts), nesting (depth 1..20000 around 10000, the innermost value a scalar or one or two more empty levels), mutated (generated documents with 1-3 byte mutations), decoder-stream (streams of 4-140 KiB of self-delimiting values and bare numbers and literals: printable-ASCII values followed or preceded by values with escapes, control and non-ASCII bytes, framed by Decoder vs encoding/json's Decoder). Quick runs one rotating consumer per document besides Valid, thorough all of them. Distinct = distinct chunk / document; non-trivial = non-empty.",
+		Rule:    "Every document goes through json.Valid and through syntax-only consumers (Marshal of RawMessage / Marshaler output / RawMessage field / RawMessage among valid siblings in maps and slices, Unmarshal into RawMessage, unknown-field skip, RawMessage field, surplus elements of [1]int and [0]int, arrays with fewer elements than slots, the document in key position of struct, empty-struct and map targets, skipped member between known fields, Decoder framing of d, 'd d' and 'dd'); each is compared with the same operation of encoding/json on the same bytes (accept/reject; for the Decoder the framed values and EOF-vs-error). Families: bytes-exhaustive (all strings of length <= 4 (quick) / 5 (thorough) over a 35-byte JSON-significant alphabet), tokens-exhaustive (all sequences of <= 3 / 4 tokens over a 40-token alphabet), string-sweep (content length 0-40 x every position x 16 special sequences x 5 contexts), number-grammar (sign x int x frac x exp product in 6 contexts), nesting (depth 1..20000 around 10000, the innermost value a scalar or one or two more empty levels), mutated (generated documents with 1-3 byte mutations), decoder-stream (streams of 4-140 KiB of self-delimiting values and bare numbers and literals: printable-ASCII values followed or preceded by values with escapes, control and non-ASCII bytes, framed by Decoder vs encoding/json's Decoder). Quick runs one rotating consumer per document besides Valid, thorough all of them. Distinct = distinct chunk / document; non-trivial = non-empty.",
 		Trusted: []string{"encoding/json (go1.23.5): Valid, Marshal, Unmarshal, Decoder as the reference for accept/reject"},
 		Subs: []core.Sub{
 			{Name: "bytes-exhaustive", N: func(t core.Tier) int {
